@@ -625,8 +625,8 @@ func (k *kase) genStep(i int) *step {
 		// any owner of the call may hold the named targets
 		o := core.Pick(r, st.owners).ok
 		n := core.Pick(r, []int{0, 1, 1, 1, 2, 2, 3})
-		if n == 0 && !r.Chance(1, 4) {
-			n = 1
+		if n == 0 && (s.composite || !r.Chance(1, 4)) {
+			n = 1 // composite keys: Delete() without targets renders "(a,b) IN (NULL)", not generated
 		}
 		ts := k.pickTargets(o, n, true, false, nil, false)
 		st.args = k.splitArgs(ts, true)
@@ -805,7 +805,7 @@ func (k *kase) checkState(st *step, eff *effect) []problem {
 		fresh := reflect.New(s.ownerT)
 		var boss *int64
 		if s.store == fkOwner {
-			boss = s.ownerBossID(ov.ok)
+			boss = s.ownerFK(ov.ok)
 		}
 		s.setOwner(fresh.Elem(), ov.ok, "o-"+ov.ok, boss)
 		for _, via := range []struct {
@@ -880,15 +880,8 @@ func (k *kase) run() {
 		if st.sliceLvl {
 			c.Inc("steps_on_owner_slice")
 		}
-		// circumstances used to classify a deviation
-		ghosts := false
-		for _, ov := range st.owners {
-			for t := range ov.mem {
-				if !k.m.links[ov.ok][t] {
-					ghosts = true
-				}
-			}
-		}
+		// snapshot used to attribute a deviation to a known class counterfactually
+		snap := k.snapshot()
 		err, count, found := k.exec(st)
 		var ps []problem
 		if err != nil {
@@ -912,7 +905,7 @@ func (k *kase) run() {
 			}
 		}
 		if !ok || err != nil {
-			fail(k.sig(st, ps[0].what, ghosts), st, ps)
+			fail(k.sig(st, ps, snap, false), st, ps)
 			return
 		}
 		eff := k.m.apply(st)
@@ -984,7 +977,7 @@ func (k *kase) run() {
 		}
 		ps = append(ps, k.checkState(st, eff)...)
 		if len(ps) > 0 {
-			fail(k.sig(st, ps[0].what, ghosts), st, ps)
+			fail(k.sig(st, ps, snap, true), st, ps)
 			return
 		}
 		cls := map[string]bool{}
@@ -1003,24 +996,163 @@ func (k *kase) run() {
 	}
 }
 
-// sig gives every class of deviation one stable signature.
-func (k *kase) sig(st *step, what string, ghosts bool) string {
-	s := k.spec
-	if s.composite {
-		keys := sortedKeys(k.usedKeys)
-		var oks []string
-		for _, o := range k.owners {
-			_, key := splitOwner(o)
-			oks = append(oks, key)
+type snapshot struct {
+	links map[string]map[string]bool
+	mem   map[string]map[string]bool // owner key -> keys held by its operated value
+}
+
+func cloneSets(m map[string]map[string]bool) map[string]map[string]bool {
+	out := map[string]map[string]bool{}
+	for o, set := range m {
+		out[o] = map[string]bool{}
+		for t := range set {
+			out[o][t] = true
 		}
-		if collide(keys) || collide(oks) {
+	}
+	return out
+}
+
+func (k *kase) snapshot() *snapshot {
+	sn := &snapshot{links: cloneSets(k.m.links), mem: map[string]map[string]bool{}}
+	for _, ov := range k.vals {
+		sn.mem[ov.ok] = map[string]bool{}
+		for t := range ov.mem {
+			sn.mem[ov.ok][t] = true
+		}
+	}
+	return sn
+}
+
+func sameLinks(model map[string]map[string]bool, db map[string]map[string]int) bool {
+	for o, set := range model {
+		if len(set) != len(db[o]) {
+			return false
+		}
+		for t := range set {
+			if db[o][t] != 1 {
+				return false
+			}
+		}
+	}
+	for o, set := range db {
+		if len(set) > 0 && model[o] == nil {
+			return false
+		}
+	}
+	return true
+}
+
+func argKeys(st *step, i int) []string {
+	var ts []*targ
+	if st.sliceLvl && (st.op == "Append" || st.op == "Replace") {
+		ts = st.args[i].ts
+	} else {
+		ts = st.flat()
+	}
+	var out []string
+	for _, t := range ts {
+		if t.key != "" {
+			out = append(out, t.key)
+		}
+	}
+	return out
+}
+
+// sig gives every class of deviation one stable signature. A named class is only assigned
+// when the stored links equal what the class predicts (counterfactual model) resp. when the
+// circumstances and the kinds of disagreement are exactly those of the class.
+func (k *kase) sig(st *step, ps []problem, sn *snapshot, applied bool) string {
+	s := k.spec
+	whats := map[string]bool{}
+	for _, p := range ps {
+		whats[p.what] = true
+	}
+	only := func(allowed ...string) bool {
+		for w := range whats {
+			ok := false
+			for _, a := range allowed {
+				ok = ok || a == w
+			}
+			if !ok {
+				return false
+			}
+		}
+		return true
+	}
+	if s.composite {
+		// colliding keys among the records / owners this call deals with
+		var tks, oks []string
+		for _, t := range st.flat() {
+			tks = append(tks, t.key)
+		}
+		for _, ov := range st.owners {
+			_, key := splitOwner(ov.ok)
+			oks = append(oks, key)
+			tks = append(tks, sortedKeys(sn.links[ov.ok])...)
+			tks = append(tks, sortedKeys(sn.mem[ov.ok])...)
+			tks = append(tks, sortedKeys(k.m.links[ov.ok])...)
+		}
+		if collide(tks) || collide(oks) {
 			return "composite-key-collision"
 		}
 	}
-	if ghosts && st.op == "Append" && s.store == fkTarget && !s.single {
-		return "stale-value-resave"
+	stored := s.readLinks()
+	if applied && s.store == fkTarget && !s.single && st.op == "Append" {
+		// counterfactual: every Append saves the whole in-memory field of the value again,
+		// so links another owner took over in the meantime come back
+		alt := &model{spec: s, links: cloneSets(sn.links)}
+		for i, ov := range st.owners {
+			for _, t := range append(sortedKeys(sn.mem[ov.ok]), argKeys(st, i)...) {
+				alt.link(ov.ok, t, &effect{})
+			}
+		}
+		if sameLinks(alt.links, stored) && !sameLinks(k.m.links, stored) {
+			return "stale-value-resave"
+		}
 	}
-	parts := []string{what, s.name, st.op}
+	if applied && s.store == joinRows && st.op == "Replace" && st.sliceLvl {
+		// counterfactual: the clean-up keeps every join row whose target occurs in ANY argument
+		all := map[string]bool{}
+		for i := range st.owners {
+			for _, t := range argKeys(st, i) {
+				all[t] = true
+			}
+		}
+		alt := cloneSets(k.m.links)
+		for _, ov := range st.owners {
+			for t := range sn.links[ov.ok] {
+				if all[t] {
+					alt[ov.ok][t] = true
+				}
+			}
+		}
+		if sameLinks(alt, stored) && !sameLinks(k.m.links, stored) {
+			return "many2many-owner-slice-replace-keeps-other-owners-targets"
+		}
+	}
+	if s.store == fkOwner && (!applied || sameLinks(k.m.links, stored)) {
+		keyKind := ":value-key"
+		if s.name == "belongs_to" {
+			keyKind = ":pointer-key"
+		}
+		switch {
+		case st.unscoped && (st.op == "Append" || st.op == "Replace") && only("records", "count", "find"):
+			return "belongs-to-unscoped-replace-deletes-wrong-record" + keyKind
+		case st.unscoped && st.op == "Delete" && only("records", "count", "find"):
+			return "belongs-to-unscoped-delete-deletes-unnamed-record"
+		case st.unscoped && st.op == "Clear" && whats["error"]:
+			return "belongs-to-unscoped-clear-error"
+		case !st.unscoped && st.op == "Delete" && only("count", "find"):
+			viaFresh := false
+			for _, p := range ps {
+				viaFresh = viaFresh || strings.Contains(p.msg, "a fresh")
+			}
+			if !viaFresh {
+				return "belongs-to-delete-keeps-key-in-value"
+			}
+		}
+	}
+	parts := []string{ps[0].what, s.name, st.op}
 	if st.unscoped {
 		parts = append(parts, "unscoped")
 	}
@@ -1061,12 +1193,17 @@ var Engine = &core.Engine{
 	},
 	Cases: func(tier string) int {
 		if tier == "thorough" {
-			return 72 * 600
+			return 81 * 4000
 		}
-		return 72 * 30
+		return 81 * 200
 	},
-	Batch:         func(string) int { return 72 },
+	Batch:         func(tier string) int {
+		if tier == "thorough" {
+			return 81 * 25
+		}
+		return 81 * 4
+	},
 	Run:           run,
 	Init:          initEnv,
-	MinNontrivial: 300,
+	MinNontrivial: 3000,
 }
